@@ -12,3 +12,5 @@ Lemma todict_ok : forallb todict_row_ok todict_table = true.
 Proof. vm_compute. reflexivity. Qed.
 Lemma table_nonempty : Nat.leb 40 (List.length class_table) = true /\ Nat.leb 300 functions_analysed = true.
 Proof. vm_compute. split; reflexivity. Qed.
+Lemma base_args_ok : base_args_table = [("always_apply", "always_apply"); ("p", "p")].
+Proof. vm_compute. reflexivity. Qed.
